@@ -142,6 +142,8 @@ type Conn struct {
 	OnIdle func()
 	// OnReadEnter is called whenever a reader (re-)enters ReadFrom: the previous datagram has been dealt with.
 	OnReadEnter func()
+	// NextWriteDelay, set by OnWrite, makes the current WriteTo take that long.
+	NextWriteDelay time.Duration
 	// CloseErr is what Close returns the first time.
 	CloseErr error
 
@@ -229,6 +231,11 @@ func (c *Conn) WriteTo(b []byte, to net.Addr) (int, error) {
 	c.Writes++
 	if c.OnWrite != nil {
 		c.OnWrite(append([]byte(nil), b...), to)
+	}
+	if d := c.NextWriteDelay; d > 0 {
+		// a slow socket: the write itself takes (virtual) time
+		c.NextWriteDelay = 0
+		simrt.Sleep(d, c.siteWrite)
 	}
 	return len(b), nil
 }
